@@ -62,7 +62,7 @@ func init() {
 			{Name: "client-watchdog", Weight: 3, Bubble: true, Run: func(e *Env) { c13Client(e, false) }},
 			{Name: "answering", Weight: 1, Bubble: true, Run: func(e *Env) { smaRun(e, "C13") }},
 		},
-		MustProbes: []string{"cycle-acked", "silent-peer-closed", "spared-20-cycles", "dwa-checked", "dwa-surplus", "dwa-failure-code", "client-role-dwa"},
+		MustProbes: []string{"cycle-acked", "silent-peer-closed", "spared-20-cycles", "dwa-checked", "dwa-surplus", "dwa-failure-code", "client-role-dwa", "app-write-stalled"},
 	})
 }
 
